@@ -55,6 +55,17 @@ func runC09(env *core.Env) {
 	if env.Thorough() {
 		cfgs = append(cfgs, c08Configs(3, c08Small, 3)...)
 	}
+	// the one- and two-task stores once more as an older ergo would have written them (epics with a stored state)
+	for _, n := range []int{1, 2} {
+		opts := c08Full
+		if n == 2 && !env.Thorough() {
+			opts = c08Small
+		}
+		for _, c := range c08Configs(n, opts, 3) {
+			c.Variant = 6
+			cfgs = append(cfgs, c)
+		}
+	}
 	var evalsA, prunedSomething, followUps int64
 	classes := newCounter()
 	samples := &sampleSet{max: 8}
